@@ -11,21 +11,29 @@ var vDigits = []string{"0", "1", "2", "3", "4", "5", "6", "7"}
 type vBDesc struct {
 	keys []uint16
 	cs   []*vDesc
+	dead []bool // dead[j]: slot j is not a chunk of its own (its key is carried by another slot); nil = all live
+}
+
+func (d *vBDesc) isDead(j int) bool {
+	if d.dead == nil {
+		return false
+	}
+	return d.dead[j]
 }
 
 func (d *vBDesc) has(x uint32) bool {
 	r := false
 	hi, lo := uint16(x>>16), uint16(x)
 	for j, k := range d.keys {
-		r = vsym.Or(r, vsym.And(k == hi, d.cs[j].has(lo)))
+		r = vsym.Or(r, vsym.And(vsym.And(k == hi, !d.isDead(j)), d.cs[j].has(lo)))
 	}
 	return r
 }
 
 func (d *vBDesc) card() int {
 	n := 0
-	for _, c := range d.cs {
-		n += c.card()
+	for j, c := range d.cs {
+		n += vsym.IteInt(d.isDead(j), 0, c.card())
 	}
 	return n
 }
@@ -149,12 +157,78 @@ func vBitmapWf(rb *Bitmap, strict bool) {
 	}
 }
 
-// vBitmapExact: rb denotes exactly {x : has(x)} with cardinality card.
-func vBitmapExact(rb *Bitmap, has func(x uint32) bool, card int, strict bool) {
+// vBSpec: the specification of a whole bitmap: pointwise membership, total cardinality and,
+// for the word/count oracle on large chunks, the specification restricted to one chunk key.
+type vBSpec struct {
+	has   func(x uint32) bool
+	card  int
+	chunk func(key uint16) vSpec
+}
+
+func (d *vBDesc) spec() vBSpec {
+	return vBSpec{has: d.has, card: d.card(), chunk: d.chunkSpec}
+}
+
+// the described set restricted to one chunk key (keys of d may repeat; inactive chunks denote nothing)
+func (d *vBDesc) chunkSpec(key uint16) vSpec {
+	return vSpec{
+		has: func(lo uint16) bool { return d.has(uint32(key)<<16 | uint32(lo)) },
+		words: func() []uint64 {
+			w := make([]uint64, 1024)
+			for j, k := range d.keys {
+				if vsym.Concrete(uint64(vsym.B2I(vsym.And(k == key, !d.isDead(j))))) {
+					if k == key && !d.isDead(j) {
+						wj := d.cs[j].words()
+						for i := range w {
+							w[i] |= wj[i]
+						}
+					}
+					continue
+				}
+				wj := d.cs[j].words()
+				for i := range w {
+					w[i] |= vsym.IteU64(vsym.And(k == key, !d.isDead(j)), wj[i], 0)
+				}
+			}
+			return w
+		},
+		card: func() int {
+			n := 0
+			for j, k := range d.keys {
+				n += vsym.IteInt(vsym.And(k == key, !d.isDead(j)), d.cs[j].card(), 0)
+			}
+			return n
+		},
+	}
+}
+
+// vBitmapExact: rb denotes exactly the specified set and is well-formed.
+// Small chunks are compared pointwise with one free probe; bitmap chunks and large arrays chunk-wise by words/count.
+func vBitmapExact(rb *Bitmap, sp vBSpec, strict bool) {
 	vBitmapWf(rb, strict)
-	x := vsym.U32()
-	vsym.Assert(vBitmapHas(rb, x) == has(x), "exact-set")
-	vsym.Assert(vBitmapCard(rb) == card, "cardinality")
+	ra := &rb.highlowcontainer
+	big := false
+	for _, c := range ra.containers {
+		switch r := c.(type) {
+		case *bitmapContainer:
+			big = true
+		case *arrayContainer:
+			if len(r.content) > 64 {
+				big = true
+			}
+		}
+	}
+	if !big || sp.chunk == nil {
+		x := vsym.U32()
+		vsym.Assert(vBitmapHas(rb, x) == sp.has(x), "exact-set")
+	} else {
+		// chunk-wise: every chunk equals the specification restricted to its key; together with the cardinality
+		// equality below this is set equality
+		for i, c := range ra.containers {
+			vCheckExact(c, sp.chunk(ra.keys[i]), false, false)
+		}
+	}
+	vsym.Assert(vBitmapCard(rb) == sp.card, "cardinality")
 }
 
 // snapshot of a whole bitmap (representation level) to assert arguments are not modified
